@@ -319,6 +319,11 @@ func unmarshalObject(dec *msgpack.Decoder, atys map[string]cty.Type, path cty.Pa
 		if !exists {
 			return cty.DynamicVal, path.NewErrorf("unsupported attribute")
 		}
+		if _, duplicate := vals[key]; duplicate {
+			// The map has the right number of entries, so a repeated key
+			// means that some other attribute is missing.
+			return cty.DynamicVal, path.NewErrorf("duplicate attribute")
+		}
 
 		val, err := unmarshal(dec, aty, path)
 		if err != nil {
